@@ -360,7 +360,9 @@ Structured(ci, M, s, uq, len) ==
 (***************************************************************************)
 IsEBlob(f) == (f.n = "q.vals" /\ f.g \in {"tq1", "cq"}) \/ f.n \in {"ood.tvals", "ood.qvals", "fl.vals", "fri.rem"}
 RetagBlob(f, ex, exn) ==
-  [j \in 1..(f.l \div ex) |-> IF exn > ex THEN Repl(f.o + j * ex, 0, Zeros(exn - ex))
+  \* (widening inserts the zero coordinates in FRONT of every element: no edit then shares its offset with
+  \*  the edit of a following length field)
+  [j \in 1..(f.l \div ex) |-> IF exn > ex THEN Repl(f.o + (j - 1) * ex, 0, Zeros(exn - ex))
                                         ELSE Repl(f.o + j * ex - (ex - exn), ex - exn, <<>>)]
 RECURSIVE RetagFrom(_, _, _, _)
 RetagFrom(M, p, ex, exn) ==
